@@ -531,13 +531,14 @@ func verifC41Part3(r *vh.Run) {
 	for ti, nodes := range trees {
 		pristine, err := verifC41Build(nodes)
 		if err != nil {
-			r.T.Fatalf("fixture tree %d: %v", ti, err)
+			r.Violationf("", fmt.Sprintf("C41|fixture-tree|%d", ti), ti, "encoding a sorted tree of %d ordinary nodes failed: %v", len(nodes), err)
+			continue
 		}
 		var nodeJSON []string
 		for _, n := range nodes {
 			b, err := json.Marshal(n)
 			if err != nil {
-				r.T.Fatalf("fixture node: %v", err)
+				r.Violationf("", fmt.Sprintf("C41|fixture-node|%d", ti), ti, "encoding an ordinary node failed: %v", err)
 			}
 			nodeJSON = append(nodeJSON, string(b))
 		}
